@@ -1,0 +1,217 @@
+//go:build verif
+
+// Contracts for the fvc verification-condition generator in /verif (comment-only file).
+// bind.go: the Bind.* methods take a binder from its pool, configure it, use it and put it back (C05); binding
+// errors are turned into 400 replies in the automatic mode (C07).
+// The contracts of (*Bind).Header/Cookie/JSON/XML/CBOR and of their deferred closures live in
+// zz_contracts_c05_verif.go (section "Binder pools") and are extended there.
+
+package fiber
+
+//@ props C05 C07
+
+// ---------------------------------------------------------------------------------------------
+// EXPORT VIEW of package binder (github.com/gofiber/fiber/v3/binder). The generator checks a function against the
+// CONTRACTS of its callees and loads, for a package, only that package's contract files and /verif/contracts/deps:
+// the contracts below repeat - marked `assumed` because they are not checked HERE - what is PROVED in
+// binder/zz_contracts_verif.go (same labels). Keep the two in step.
+// ---------------------------------------------------------------------------------------------
+// The nine binder pools of package binder, by address (spec constants: inside a clause about PutToThePool the name
+// `binder` denotes that function's parameter, not the package).
+//@ fn headerPool() ref = binder.HeaderBinderPool
+//@ fn respHeaderPool() ref = binder.RespHeaderBinderPool
+//@ fn cookiePool() ref = binder.CookieBinderPool
+//@ fn queryPool() ref = binder.QueryBinderPool
+//@ fn formPool() ref = binder.FormBinderPool
+//@ fn uriPool() ref = binder.URIBinderPool
+//@ fn xmlPool() ref = binder.XMLBinderPool
+//@ fn jsonPool() ref = binder.JSONBinderPool
+//@ fn cborPool() ref = binder.CBORBinderPool
+// binder.GetFromThePool / PutToThePool (generic): they use the pool they are given; PutToThePool does not touch the
+// binder. What GetFromThePool returns is not nil (pool-new / pool-invariant of binder/zz_contracts_verif.go under the
+// sync.Pool assumption; a pool holding a foreign object makes it panic - never reached, see there).
+//@ func @binder.GetFromThePool(pool) assumed pure allocates
+//@   ensures from-the-pool: result != nil
+//@ func @binder.PutToThePool(pool, x) assumed pure
+
+// Reset: every field of the binder back to its zero value (proved: `reset`).
+//@ func @binder.(*HeaderBinding).Reset(b) assumed
+//@   modifies b.EnableSplitting, b.Immutable
+//@   ensures reset: !b.EnableSplitting && !b.Immutable
+//@ func @binder.(*RespHeaderBinding).Reset(b) assumed
+//@   modifies b.EnableSplitting, b.Immutable
+//@   ensures reset: !b.EnableSplitting && !b.Immutable
+//@ func @binder.(*CookieBinding).Reset(b) assumed
+//@   modifies b.EnableSplitting, b.Immutable
+//@   ensures reset: !b.EnableSplitting && !b.Immutable
+//@ func @binder.(*QueryBinding).Reset(b) assumed
+//@   modifies b.EnableSplitting, b.Immutable
+//@   ensures reset: !b.EnableSplitting && !b.Immutable
+//@ func @binder.(*FormBinding).Reset(b) assumed
+//@   modifies b.EnableSplitting, b.Immutable
+//@   ensures reset: !b.EnableSplitting && !b.Immutable
+//@ func @binder.(*JSONBinding).Reset(b) assumed
+//@   modifies b.JSONDecoder
+//@   ensures reset: b.JSONDecoder == nil
+//@ func @binder.(*XMLBinding).Reset(b) assumed
+//@   modifies b.XMLDecoder
+//@   ensures reset: b.XMLDecoder == nil
+//@ func @binder.(*CBORBinding).Reset(b) assumed
+//@   modifies b.CBORDecoder
+//@   ensures reset: b.CBORDecoder == nil
+
+// Bind: frame proved in package binder - the data map made in the call, the scratch buffers, and what the decoder writes
+// into the application's object behind `out` (ASSUMED there: a map[string]string / map[string][]string or a struct of
+// the application, never an object of fiber or binder). The binder itself is only read (binder-keeps-only-its-configuration).
+//@ func @binder.(*HeaderBinding).Bind(b, req, out) assumed
+//@   modifies heap(C_error), heap(MD_string_LJstring), heap(MV_string_LJstring), heap(E_string), heap(H_bytebufferpool_ByteBuffer_B), heap(E_uint8), heap(O_reflect_StructField), heap(MD_string_string), heap(MV_string_string)
+//@ func @binder.(*RespHeaderBinding).Bind(b, resp, out) assumed
+//@   modifies heap(C_error), heap(MD_string_LJstring), heap(MV_string_LJstring), heap(E_string), heap(H_bytebufferpool_ByteBuffer_B), heap(E_uint8), heap(O_reflect_StructField), heap(MD_string_string), heap(MV_string_string)
+//@ func @binder.(*CookieBinding).Bind(b, req, out) assumed
+//@   modifies jarHas, jarVal, jarVisits, jarVisitAtNext, heap(C_error), heap(MD_string_LJstring), heap(MV_string_LJstring), heap(E_string), heap(H_bytebufferpool_ByteBuffer_B), heap(E_uint8), heap(O_reflect_StructField), heap(MD_string_string), heap(MV_string_string)
+//@ func @binder.(*QueryBinding).Bind(b, reqCtx, out) assumed
+//@   modifies heap(C_error), heap(MD_string_LJstring), heap(MV_string_LJstring), heap(E_string), heap(H_bytebufferpool_ByteBuffer_B), heap(E_uint8), heap(O_reflect_StructField), heap(MD_string_string), heap(MV_string_string)
+//@ func @binder.(*FormBinding).Bind(b, req, out) assumed
+//@   modifies heap(C_error), heap(MD_string_LJp_multipart_FileHeader), heap(MV_string_LJp_multipart_FileHeader), heap(E_p_multipart_FileHeader), heap(MD_string_LJstring), heap(MV_string_LJstring), heap(E_string), heap(H_bytebufferpool_ByteBuffer_B), heap(E_uint8), heap(O_reflect_StructField), heap(MD_string_string), heap(MV_string_string)
+//@ func @binder.(*URIBinding).Bind(b, params, paramsFunc, out) assumed
+//@   modifies heap(MD_string_LJstring), heap(MV_string_LJstring), heap(E_string), heap(H_bytebufferpool_ByteBuffer_B), heap(E_uint8), heap(O_reflect_StructField), heap(MD_string_string), heap(MV_string_string)
+//@ func @binder.(*JSONBinding).Bind(b, body, out) assumed
+//@   modifies heap(MD_string_string), heap(MV_string_string), heap(MD_string_LJstring), heap(MV_string_LJstring)
+//@ func @binder.(*XMLBinding).Bind(b, body, out) assumed
+//@   modifies heap(MD_string_string), heap(MV_string_string), heap(MD_string_LJstring), heap(MV_string_LJstring)
+//@ func @binder.(*CBORBinding).Bind(b, body, out) assumed
+//@   modifies heap(MD_string_string), heap(MV_string_string), heap(MD_string_LJstring), heap(MV_string_LJstring)
+
+// FilterFlags: the content type up to the first ' ' or ';' (proved: prefix, cut-at-a-separator).
+//@ func @binder.FilterFlags(content) assumed pure
+//@   ensures prefix: len(result) <= len(content) && result == content[:len(result)]
+//@   ensures cut-at-a-separator: len(result) < len(content) ==> content[len(result)] == ' ' || content[len(result)] == ';'
+
+// ---------------------------------------------------------------------------------------------
+// Application callbacks (ASSUMED): a struct validator and a custom binder are code of the application. Assumed of the
+// validator: it inspects the bound object and changes nothing of the library's state.
+// ---------------------------------------------------------------------------------------------
+//@ func StructValidator.Validate(recv, out) assumed pure
+
+// ---------------------------------------------------------------------------------------------
+// Error handling of the binders
+// ---------------------------------------------------------------------------------------------
+// returnErr: no error - nothing happens; manual mode (WithoutAutoHandling, the default of c.Bind()) - the error is passed
+// on as it is and the response is not touched; automatic mode - the response status becomes 400 and the caller gets a
+// new *Error with code 400.
+//@ func (*Bind).returnErr
+//@   props C07
+//@   modifies sentStatus
+//@   ensures no-error-no-effect: err == nil ==> result == nil && sentStatus == old(sentStatus)
+//@   ensures manual-mode-passes-the-error-on: err != nil && b.dontHandleErrs ==> result == err && sentStatus == old(sentStatus)
+//@   ensures automatic-mode-400: err != nil && !b.dontHandleErrs ==> sentStatus == StatusBadRequest && typeis(result, *Error) && as(result, *Error) != nil && as(result, *Error).Code == StatusBadRequest
+//@   ensures error-stays-an-error: err != nil ==> result != nil
+
+// validateStruct: the configured validator (if any) sees exactly the object that was bound; its verdict is returned as it is.
+//@ func (*Bind).validateStruct
+//@   props C07
+//@   pure
+//@   atcall StructValidator.Validate: validates-the-bound-object: arg1 == old(out) && recv == last(Ctx.App).config.StructValidator
+//@   ensures no-validator-no-error: !called(StructValidator.Validate) ==> result == nil
+
+//@ func (*Bind).WithAutoHandling
+//@   modifies b.dontHandleErrs
+//@   ensures automatic: result == b && !b.dontHandleErrs
+//@ func (*Bind).WithoutAutoHandling
+//@   modifies b.dontHandleErrs
+//@   ensures manual: result == b && b.dontHandleErrs
+
+// ---------------------------------------------------------------------------------------------
+// Pool discipline of the remaining Bind.* methods (same shape as Header/Cookie/JSON/XML/CBOR in
+// zz_contracts_c05_verif.go, section "Binder pools": see the explanation of the labels there).
+// ---------------------------------------------------------------------------------------------
+//@ func (*Bind).RespHeader
+//@   atcall @binder.GetFromThePool: own-pool: pool == respHeaderPool()
+//@   atcall @binder.(*RespHeaderBinding).Bind: configured-before-use: called(Ctx.App)
+//@   atcall @binder.(*RespHeaderBinding).Bind: configured-from-this-app: b.EnableSplitting == last(Ctx.App).config.EnableSplittingOnParsers
+//@   atcall @binder.(*RespHeaderBinding).Bind: [C06] immutable-passed-on: b.Immutable == last(Ctx.App).config.Immutable
+//@   atcall @binder.(*RespHeaderBinding).Bind: binder-from-the-pool: b == last(@binder.GetFromThePool)
+//@   atcall (*Bind).RespHeader$1: hands-back-what-it-took: bind == last(@binder.GetFromThePool)
+//@   ensures put-back-on-every-path: called((*Bind).RespHeader$1)
+//@ func (*Bind).RespHeader$1
+//@   modifies bind.EnableSplitting, bind.Immutable
+//@   atcall @binder.PutToThePool: pool-invariant: !x.EnableSplitting && !x.Immutable
+//@   atcall @binder.PutToThePool: own-binder-own-pool: x == bind && pool == respHeaderPool()
+//@   ensures handed-back: called(@binder.PutToThePool)
+//@ func (*Bind).Query
+//@   modifies sentStatus, heap(H_binder_QueryBinding_EnableSplitting), heap(H_binder_QueryBinding_Immutable), heap(C_error), heap(MD_string_LJstring), heap(MV_string_LJstring), heap(E_string), heap(H_bytebufferpool_ByteBuffer_B), heap(E_uint8), heap(O_reflect_StructField), heap(MD_string_string), heap(MV_string_string)
+//@   atcall @binder.GetFromThePool: own-pool: pool == queryPool()
+//@   atcall @binder.(*QueryBinding).Bind: configured-before-use: called(Ctx.App)
+//@   atcall @binder.(*QueryBinding).Bind: configured-from-this-app: b.EnableSplitting == last(Ctx.App).config.EnableSplittingOnParsers
+//@   atcall @binder.(*QueryBinding).Bind: [C06] immutable-passed-on: b.Immutable == last(Ctx.App).config.Immutable
+//@   atcall @binder.(*QueryBinding).Bind: binder-from-the-pool: b == last(@binder.GetFromThePool)
+//@   atcall (*Bind).Query$1: hands-back-what-it-took: bind == last(@binder.GetFromThePool)
+//@   ensures put-back-on-every-path: called((*Bind).Query$1)
+//@ func (*Bind).Query$1
+//@   modifies bind.EnableSplitting, bind.Immutable
+//@   atcall @binder.PutToThePool: pool-invariant: !x.EnableSplitting && !x.Immutable
+//@   atcall @binder.PutToThePool: own-binder-own-pool: x == bind && pool == queryPool()
+//@   ensures handed-back: called(@binder.PutToThePool)
+//@ func (*Bind).Form
+//@   modifies sentStatus, heap(H_binder_FormBinding_EnableSplitting), heap(H_binder_FormBinding_Immutable), heap(C_error), heap(MD_string_LJp_multipart_FileHeader), heap(MV_string_LJp_multipart_FileHeader), heap(E_p_multipart_FileHeader), heap(MD_string_LJstring), heap(MV_string_LJstring), heap(E_string), heap(H_bytebufferpool_ByteBuffer_B), heap(E_uint8), heap(O_reflect_StructField), heap(MD_string_string), heap(MV_string_string)
+//@   atcall @binder.GetFromThePool: own-pool: pool == formPool()
+//@   atcall @binder.(*FormBinding).Bind: configured-before-use: called(Ctx.App)
+//@   atcall @binder.(*FormBinding).Bind: configured-from-this-app: b.EnableSplitting == last(Ctx.App).config.EnableSplittingOnParsers
+//@   atcall @binder.(*FormBinding).Bind: [C06] immutable-passed-on: b.Immutable == last(Ctx.App).config.Immutable
+//@   atcall @binder.(*FormBinding).Bind: binder-from-the-pool: b == last(@binder.GetFromThePool)
+//@   atcall (*Bind).Form$1: hands-back-what-it-took: bind == last(@binder.GetFromThePool)
+//@   ensures put-back-on-every-path: called((*Bind).Form$1)
+//@ func (*Bind).Form$1
+//@   modifies bind.EnableSplitting, bind.Immutable
+//@   atcall @binder.PutToThePool: pool-invariant: !x.EnableSplitting && !x.Immutable
+//@   atcall @binder.PutToThePool: own-binder-own-pool: x == bind && pool == formPool()
+//@   ensures handed-back: called(@binder.PutToThePool)
+// nosafety assert:type - ENGINE LIMITATION, not an assumption about the code: the method value `b.ctx.Params` compiles to
+// an interface-to-interface assertion `b.ctx.(Ctx)` whose only purpose is the nil check of the receiver; the generator does
+// not model the outcome of interface-to-interface assertions (same situation as (*App).AcquireCtx), so the obligation cannot
+// be discharged even under has-context. (*DefaultCtx).Bind creates every Bind with ctx set (clause `own` in zz_contracts_c05_verif.go).
+//@ func (*Bind).URI
+//@   requires has-context: b.ctx != nil
+//@   nosafety assert:type
+//@   atcall @binder.GetFromThePool: own-pool: pool == uriPool()
+//@   atcall @binder.(*URIBinding).Bind: binder-from-the-pool: b == last(@binder.GetFromThePool)
+//@   atcall (*Bind).URI$1: hands-back-what-it-took: bind == last(@binder.GetFromThePool)
+//@   ensures put-back-on-every-path: called((*Bind).URI$1)
+// (the URI binder has no field: there is nothing to reset and no pool-invariant clause; a Bind that keeps data in
+// the binder fails the frame obligation of (*URIBinding).Bind in package binder)
+//@ func (*Bind).URI$1
+//@   pure
+//@   atcall @binder.PutToThePool: own-binder-own-pool: x == bind && pool == uriPool()
+//@   ensures handed-back: called(@binder.PutToThePool)
+
+// ---------------------------------------------------------------------------------------------
+// Custom binders and content-type dispatch (C07: the loops end, no index leaves its slice; the error of a custom
+// binder goes through returnErr like the errors of the built-in binders)
+// ---------------------------------------------------------------------------------------------
+// A custom binder is code of the application (ASSUMED: Name/MIMETypes are observers; Parse may do anything).
+//@ func CustomBinder.Name(recv) assumed pure
+//@ func CustomBinder.MIMETypes(recv) assumed pure
+//@ func CustomBinder.Parse(recv, c, out) assumed
+//@   modifies heap
+
+//@ func (*Bind).Custom
+//@   props C07
+//@   loop 1
+//@     invariant not-found-so-far: !called(CustomBinder.Parse)
+//@     decreases len(binders) - rangeindex
+//@   atcall CustomBinder.Parse: this-context-and-destination: arg1 == b.ctx && arg2 == dest
+//@   atcall (*Bind).returnErr: verdict-of-the-custom-binder: called(CustomBinder.Parse) && err == last(CustomBinder.Parse)
+//@   ensures handled-like-the-built-in-binders: called(CustomBinder.Parse) ==> called((*Bind).returnErr)
+//@   ensures unknown-name: !called(CustomBinder.Parse) ==> result == ErrCustomBinderNotFound
+
+//@ func (*Bind).Body
+//@   props C07
+//@   loop 1
+//@     invariant no-custom-binder-ran: !called(CustomBinder.Parse)
+//@     decreases len(binders) - rangeindex
+//@   loop 2
+//@     invariant no-custom-binder-ran: !called(CustomBinder.Parse)
+//@     decreases len(last(CustomBinder.MIMETypes)) - rangeindex
+//@   atcall CustomBinder.Parse: this-context-and-destination: arg1 == b.ctx && arg2 == old(out)
+//@   atcall (*Bind).returnErr: verdict-of-the-custom-binder: called(CustomBinder.Parse) && err == last(CustomBinder.Parse)
+//@   ensures custom-binder-errors-handled: called(CustomBinder.Parse) ==> called((*Bind).returnErr)
